@@ -40,7 +40,8 @@ type c09Spec struct {
 	PrimeBare  bool     `json:"prime_bare,omitempty"` // the priming event has no event: name (id and empty data only)
 	IDs        bool     `json:"ids"`                  // events carry ids
 	RetryField bool     `json:"retry_field"`
-	MaxRetries int      `json:"max_retries"`
+	MaxRetries int      `json:"max_retries"`            // -1: reconnecting is disabled
+	CType      string   `json:"content_type,omitempty"` // how the server labels its SSE responses (default text/event-stream)
 	FirstCut   c09Cut   `json:"first_cut"`
 	Reconnects []string `json:"reconnects"` // ok | neterr | 500 | 502 | 503 | 404 | 400 | 405
 	Cuts       []c09Cut `json:"cuts"`       // cut applied to the i-th "ok" reconnect body
@@ -49,6 +50,12 @@ type c09Spec struct {
 func genC09(r *vh.Rand) c09Spec {
 	s := c09Spec{K: r.Range(0, 4), Prime: r.Bool(), IDs: !r.Chance(1, 10), RetryField: r.Chance(1, 4), MaxRetries: []int{1, 2, 3, 5}[r.Intn(4)]}
 	s.PrimeBare = s.Prime && r.Bool()
+	if r.Chance(1, 10) {
+		s.MaxRetries = -1
+	}
+	if r.Chance(1, 4) {
+		s.CType = r.Choose("text/event-stream; charset=utf-8", "Text/Event-Stream", "text/event-stream;charset=UTF-8")
+	}
 	s.FirstCut = c09Cut{At: r.Intn(700), Kind: r.Choose("error", "eof")}
 	if s.Prime && r.Chance(1, 4) {
 		s.FirstCut.At = r.Range(20, 40) // right after the priming event: it is all the client has
@@ -141,6 +148,13 @@ type c09Server struct {
 	runaway bool
 	callID  string
 	tok     any
+}
+
+func (s *c09Server) ctype() string {
+	if s.spec.CType != "" {
+		return s.spec.CType
+	}
+	return "text/event-stream"
 }
 
 func (s *c09Server) resp(req *http.Request, status int, ctype string, body io.ReadCloser, hdr map[string]string) *http.Response {
@@ -243,7 +257,7 @@ func (s *c09Server) RoundTrip(req *http.Request) (*http.Response, error) {
 			}
 			// the script is exhausted: the server keeps answering 200 with an empty stream (no progress, for ever)
 			s.served = append(s.served, nil)
-			return s.resp(req, 200, "text/event-stream", &c09Body{r: bytes.NewReader(nil), kind: "eof"}, nil), nil
+			return s.resp(req, 200, s.ctype(), &c09Body{r: bytes.NewReader(nil), kind: "eof"}, nil), nil
 		case "404-json", "404-json-null", "400-json":
 			// the status with a JSON-RPC error as its body, as MCP servers answer an unknown session
 			s.fatal = true
@@ -279,7 +293,7 @@ func (s *c09Server) RoundTrip(req *http.Request) (*http.Response, error) {
 			cut = s.spec.Cuts[s.nOK]
 		}
 		s.nOK++
-		return s.resp(req, 200, "text/event-stream", s.serve(from, cut), nil), nil
+		return s.resp(req, 200, s.ctype(), s.serve(from, cut), nil), nil
 	}
 	body, _ := io.ReadAll(req.Body)
 	var m struct {
@@ -295,7 +309,7 @@ func (s *c09Server) RoundTrip(req *http.Request) (*http.Response, error) {
 		return s.resp(req, 200, "application/json", io.NopCloser(strings.NewReader(fmt.Sprintf(`{"jsonrpc":"2.0","id":%s,"result":%s}`, m.ID, vhm.InitializeResultJSON("2025-11-25")))), map[string]string{"Mcp-Session-Id": "sess-1"}), nil
 	case m.Method == "tools/call":
 		s.build(m.ID, m.Params.Meta["progressToken"])
-		return s.resp(req, 200, "text/event-stream", s.serve(0, s.spec.FirstCut), nil), nil
+		return s.resp(req, 200, s.ctype(), s.serve(0, s.spec.FirstCut), nil), nil
 	case len(m.ID) == 0:
 		return s.resp(req, 202, "", http.NoBody, nil), nil
 	}
@@ -518,6 +532,10 @@ func runC09(c *vh.Case, spec c09Spec) {
 				if run > worst {
 					worst = run
 				}
+			}
+			if spec.MaxRetries < 0 && srv.nRec > 0 {
+				c.Violate("reconnect-although-disabled", "MaxRetries is negative (reconnecting disabled) but the client issued %d resume request(s)", srv.nRec)
+				return
 			}
 			if worst >= spec.MaxRetries || srv.nRec > len(spec.Reconnects) {
 				mustSucceed = false
